@@ -44,6 +44,7 @@ type Spec struct {
 	Files        map[string]string   `json:"files"`
 	Modes        map[string]uint32   `json:"modes,omitempty"`
 	ReadOnlyDirs []string            `json:"ro_dirs,omitempty"`
+	Links        map[string]string   `json:"links,omitempty"`
 	Argv         []string            `json:"argv"`
 	Today        string              `json:"today,omitempty"`
 	Sched        Sched               `json:"sched"`
@@ -141,6 +142,9 @@ func RunFunc(spec *Spec, root func()) *Out {
 					m = os.FileMode(mm)
 				}
 				fs.Put(n, spec.Files[n], m)
+			}
+			for l, t := range spec.Links {
+				fs.PutLink(l, t)
 			}
 			for _, d := range spec.ReadOnlyDirs {
 				fs.ReadOnlyDirs[d] = true
